@@ -100,7 +100,7 @@ class Model:
     self.queries = 0
     self._build()
 
-  LIST_OPS = ('push', 'pop_top', 'read_top', 'read_all', 'read_at')
+  LIST_OPS = ('push', 'pop_top', 'read_top', 'read_all', 'read_at', 'truncate')
 
   def _discover(self, obj, op, key, obs, w):
     if op == 'effect':
@@ -111,7 +111,7 @@ class Model:
       if isinstance(w, dict):
         for tokv in w.values():
           self.tokens.setdefault(abs_tok(tokv), len(self.tokens))
-      if op == 'read_top' or op == 'read_at':
+      if op in ('read_top', 'read_at', 'pop_top'):
         self.tokens.setdefault(abs_tok(obs), len(self.tokens))
       if op == 'read_all':
         for tk in obs:
@@ -236,7 +236,7 @@ class Model:
             if op == 'push':
               bad_now.append(z3.And(g, ln == IV(self.K)))       # model capacity exceeded
             for obs, child in nd['children'].items():
-              if op == 'read_top':
+              if op in ('read_top', 'pop_top'):
                 conds.append((top == IV(self.tokens[abs_tok(obs)]), obs, child))
               elif op == 'read_all':
                 conds.append((z3.And([ln == IV(len(obs))] +
@@ -326,6 +326,11 @@ class Model:
             if op == 'pop_top':
               o = self.lists[obj]
               upd_llen[o].append((gc_, self.llen[o][t] - 1))
+              continue
+            if op == 'truncate':
+              o = self.lists[obj]
+              n_ = IV(int(key))
+              upd_llen[o].append((gc_, z3.If(z3.ULT(n_, self.llen[o][t]), n_, self.llen[o][t])))
               continue
             if op in self.LIST_OPS:
               continue
